@@ -321,7 +321,10 @@ class BaseChannel:
             N/A
 
         """
-        if self.channel_log:
+        if self.channel_log and self.channel_log is not self._base_channel_args.channel_log:
+            # only close what the channel opened itself -- a user provided BytesIO is left open so
+            # it can still be read after the connection is closed, and so that the connection can
+            # be opened again
             self.channel_log.close()
 
     def _process_read_buf(self, read_buf: BytesIO) -> bytes:
